@@ -89,7 +89,27 @@ func genC03Op(t *rapid.T, a *ref.AF) OpC03 {
 		if n > 190 {
 			n = 190
 		}
+		if rapid.IntRange(0, 11).Draw(t, "dl-huge") == 0 {
+			// lengths that do not fit the one-byte length field
+			n = rapid.SampledFrom([]int{255, 256, 257, 300, 511, 512, 513}).Draw(t, "dl-huge-n")
+		}
 		o.Data = genBytes(t, n, n, "data")
+		if o.Kind == "tpd" && n >= 10 && rapid.IntRange(0, 3).Draw(t, "tpd-structured") == 0 {
+			// private data that looks like a descriptor chain ending in an EBP descriptor
+			d := []byte{}
+			for len(d)+4 < n-8 && rapid.Bool().Draw(t, "chain-more") {
+				l := rapid.IntRange(0, 3).Draw(t, "chain-len")
+				d = append(d, rapid.SampledFrom([]byte{0xA0, 0xA9, 0x05, 0xE9}).Draw(t, "chain-tag"), byte(l))
+				d = append(d, genBytes(t, l, l, "chain-body")...)
+			}
+			d = append(d, rapid.SampledFrom([]byte{0xDF, 0xA9}).Draw(t, "ebp-tag"), byte(n-len(d)-2), 'E', 'B', 'P', '0')
+			for len(d) < n {
+				d = append(d, byte(len(d)))
+			}
+			if len(d) == n {
+				o.Data = d
+			}
+		}
 	case "copyAF":
 		src := genWellFormedPacket(t, []int{2, 3}, 1)
 		b := src.MustBytes()
